@@ -39,7 +39,7 @@ pub fn exec(iter: Variable, function: Variable) -> ExecResult {
 }
 
 pub fn return_type(var_type: Type) -> Type {
-    let element_type = var_type.iter_element().unwrap();
+    let element_type = var_type.iter_element().unwrap_or(Type::Never);
     let element_type2 = element_type.clone();
     var_type!(([element_type], [element_type2]))
 }
